@@ -17,10 +17,11 @@ WAVE17 = {
     "C08": "; the same argument arrays edited in place between consecutive calls on one object",
     "C12": "; indices within 1e-12..1e-6 of 1 on both sides judged at a flat 1e-9 decades against the 60-digit image",
     "C13": "; integrals as observers of the thrown geometry (arrays and instants unchanged after optical / radio integrals with real decay lengths); observation windows containing a UTC leap second; positions for narrow-dtype distance arrays",
-    "C14": "; every empty-run case with and without progress messages; narrow-cone configurations in the channel-isolation runs",
+    "C14": "; every empty-run case with and without progress messages; narrow-cone configurations and target-mode runs with the radio trigger switched off in the channel-isolation runs",
     "C15": "; every unit field offered texts that a field of another dimension has just accepted (rejection must not depend on parse history)",
     "C17": "; with writing disabled, failures injected at the entry of and inside stages must leave nothing on disk; staged runs named by a relative path from three working directories in one process",
     "C18": "; integer axes over the whole range of their dtype, half-precision-axis variants, nodes given as numpy scalars and as Python numbers; slice / edit in place / slice history; float16 fixed witnesses",
+    "C20": "; decays within 1e-10 km below the ground among the out-of-range events",
     "C19": "; memory-layout monitor (10 layouts, both directions) and re-used-buffer history (same array object refilled in place between consecutive calls)",
 }
 
